@@ -137,7 +137,7 @@ UNARY = {
     "unit": lambda q: q.unit(), "unit_inplace": lambda q: q.copy().unit(inplace=True),
     "unit_max": lambda q: q.unit(norm="max"), "unit_max_inplace": lambda q: q.copy().unit(inplace=True, norm="max"),
     "unit_fro_inplace": lambda q: q.copy().unit(inplace=True, norm="fro"), "unit_one_inplace": lambda q: q.copy().unit(inplace=True, norm="one"),
-    "tidyup": lambda q: q.copy().tidyup(), "proj_col": None, "ptrace": None,
+    "tidyup": lambda q: q.copy().tidyup(), "tidyup_coarse": lambda q: _tidyup_coarse(q), "proj_col": None, "ptrace": None,
     "spre": None, "spost": None, "to_super": None, "liouvillian": None, "dissipator": None,
     "evo_const": None, "evo_td": None, "permute": None, "transform": None, "contract": None,
     "sesolve_prop": None, "mesolve_dm": None, "propagator": None, "steadystate": None,
@@ -154,7 +154,26 @@ UNARY = {
 BINARY = {
     "add": lambda a, b: a + b, "sub": lambda a, b: a - b, "matmul": lambda a, b: a @ b, "mul": lambda a, b: a * b,
     "tensor": None, "sprepost": None, "commutator": None, "anticomm": None, "radd_scalar": None,
+    "set_data": lambda a, b: _set_data(a, b),
 }
+
+
+def _set_data(a, b):
+    """in-place replacement of the entries through the public setter, after the flags of the object were read"""
+    r = a.copy()
+    r.isherm
+    r.isunitary
+    if b.shape == r.shape:
+        r.data = b.data.copy()
+    return r
+
+
+def _tidyup_coarse(q):
+    """in-place tidy-up with a threshold that removes entries of order one half, after the flags were read"""
+    r = q.copy()
+    r.isherm
+    r.isunitary
+    return r.tidyup(0.8)
 
 
 def apply_op(name, args, rng):
